@@ -200,7 +200,7 @@ def facets_of(div):
     f = set()
     table = [
         ('dispatch: outcome', 'capacity'), ('dispatch:', 'dispatch'), ('take:', 'queue'), ('lock', 'lock'),
-        ('recursion', 'recursion'), ('peBegin:', 'activation'), ('peRecTrip', 'recursion'), ('hSched:', 'handlers'),
+        ('recursion', 'recursion'), ('peBegin:', 'activation'), ('peRecTrip', 'recursion'), ('hSched:', 'handlers'), ('hSkip:', 'handlers'),
         ('hStart:', 'lifecycle'), ('hEnd:', 'lifecycle'), ('hFinish:', 'lifecycle'), ('deadline', 'timeout'),
         ('cancel', 'timeout'), ('tick:', 'timeout'), ('peEnd:', 'activation'), ('peAbort:', 'activation'),
         ('walWrite', 'wal'), ('wal lines', 'wal'), ('awaitBegin', 'await'), ('awaitEnd', 'await'), ('pollYield', 'await'),
